@@ -41,6 +41,7 @@ def setup(rep, tier):
     rep.minimum('R05.4', 3)
     rep.minimum('R05.5', 3)
     rep.minimum('R05.6', 1)
+    rep.minimum('R05.7', 2)
 
 
 def local_key(f, name):
@@ -475,7 +476,203 @@ def T_minmax(e):
     return None
 
 
+# ------------------------------------------------------------------ R05.7
+class _NonPoly(Exception):
+    pass
+
+
+def _rate_identity(prog, g):
+    """Sum over streams of rate[i] as a polynomial; returns (ok, detail)"""
+    from ..poly import Poly
+    cg = cfgm.CFG(g)
+    rds = {}
+    ratios = {}
+    names = {}
+
+    def rd(lid):
+        if lid not in rds:
+            rds[lid] = cfgm.reaching_defs(cg, lid)
+        return rds[lid]
+
+    def local_poly(e, pos):
+        lid = e[2]
+        cur, defs = cfgm.defs_at(cg, lid, pos[0], pos[1], rd(lid))
+        if len(cur) == 1:
+            d = next(iter(cur))
+            db, di, dn = defs[d]
+            if dn[0] == 'assign':
+                rhs = sx.strip(dn[2])
+                if sx.kind(rhs) == 'bin' and rhs[1] == '/':
+                    try:
+                        A, B = conv(rhs[2], (db, di)), conv(rhs[3], (db, di))
+                        nm = '%s#%d' % (e[1], len(ratios))
+                        for k, v in ratios.items():
+                            if v[2] == d:
+                                return Poly.sym(k)
+                        ratios[nm] = (A, B, d)
+                        names[nm] = e[1]
+                        return Poly.sym(nm)
+                    except _NonPoly:
+                        pass
+                else:
+                    try:
+                        return conv(rhs, (db, di))
+                    except _NonPoly:
+                        pass
+        nm = '%s@%s' % (e[1], '.'.join(str(defs[d][0] * 1000 + defs[d][1]) for d in sorted(cur, key=lambda d: (defs[d][0], defs[d][1]))))
+        names[nm] = e[1]
+        return Poly.sym(nm)
+
+    def conv(e, pos):
+        e = sx.strip(e)
+        k = sx.kind(e)
+        iv = sx.int_val(e)
+        if iv is not None:
+            return Poly.const(iv)
+        if k == 'local':
+            return local_poly(e, pos)
+        if k == 'param':
+            return Poly.sym(e[2] if isinstance(e[2], str) else str(e[1]))
+        if k in ('arrow', 'field', 'member'):
+            nm = sx.show(e)
+            return Poly.sym(nm)
+        if k == 'bin':
+            op = e[1]
+            if op in ('+', '-', '*'):
+                a, b = conv(e[2], pos), conv(e[3], pos)
+                return a + b if op == '+' else a - b if op == '-' else a * b
+            if op in ('<<', '>>'):
+                sh = sx.int_val(e[3])
+                if sh is None:
+                    raise _NonPoly(sx.show(e))
+                a = conv(e[2], pos)
+                return a.scale(2 ** sh) if op == '<<' else a.scale(Fraction(1, 2 ** sh))
+            if op == '/':
+                b = conv(e[3], pos)
+                if b.is_const() and b.const_value() != 0:
+                    return conv(e[2], pos).scale(1 / b.const_value())
+            raise _NonPoly(sx.show(e))
+        if k == 'cond':
+            mm = T_minmax(e)
+            if mm and mm[0] == 'max' and 0 in (sx.int_val(mm[1]), sx.int_val(mm[2])):
+                return conv(mm[2] if sx.int_val(mm[1]) == 0 else mm[1], pos)
+        raise _NonPoly(sx.show(e))
+
+    from fractions import Fraction
+    # the per-stream loop and the stores into rate[i]
+    rate_p = [p for p in g.params if p['name'] == 'rate']
+    stores = []
+    for b, i, s_ in cg.positions():
+        if s_[0] == 'assign' and sx.kind(sx.strip(s_[1])) == 'idx' and sx.kind(sx.strip(sx.strip(s_[1])[1])) == 'param' and 'rate' in sx.strip(sx.strip(s_[1])[1]):
+            stores.append((b, i, s_))
+    if not stores:
+        return None, 'no store into rate[]'
+    loops = cg.natural_loops()
+    total = Poly()
+    classes = []
+    lfe_sym = None
+    for n in g.all_nodes():
+        if sx.kind(n) == 'bin' and n[1] == '!=' and 'lfe_stream' in sx.show(n[2]) and sx.int_val(n[3]) == -1:
+            lfe_sym = n
+    for b, i, s_ in stores:
+        L = [x for x in loops if b in x[2]]
+        if not L:
+            return None, 'store into rate[] outside a loop'
+        head, latch, body = min(L, key=lambda x: len(x[2]))
+        hc = cg.cond(head)
+        hcs = sx.strip(hc) if hc is not None else None
+        if hcs is None or sx.kind(hcs) != 'bin' or hcs[1] != '<':
+            return None, 'per-stream loop condition not of the form i < N'
+        ctr = sx.key(sx.strip(hcs[2]))
+        gs = [(c, pol) for c, pol, gb in cfgm.guards_of(cg, b) if gb in body and gb != head]
+        gs = list(reversed(gs))
+        try:
+            N = conv(hcs[3], (head, 0))
+            def lfe_count():
+                if lfe_sym is None:
+                    return Poly.sym('has_lfe')
+                return conv_lfe()
+            def conv_lfe():
+                # the local whose definition is (st->lfe_stream != -1), else an opaque symbol of that text
+                for l in g.locals.values():
+                    for lv, r in decide.find_assign(g, l['name']):
+                        if sx.key(sx.strip(r)) == sx.key(sx.strip(lfe_sym)):
+                            return local_poly(['local', l['name'], l['id']], (b, i))
+                return Poly.sym(sx.show(lfe_sym))
+            shape = [(sx.strip(c)[1], pol, sx.key(sx.strip(sx.strip(c)[2])) == ctr) for c, pol in gs if sx.kind(sx.strip(c)) == 'bin']
+            if not gs:
+                count = N
+            elif shape == [('<', True, True)]:
+                count = conv(sx.strip(gs[0][0])[3], (b, i))
+            elif shape == [('<', False, True), ('!=', True, True)] and 'lfe_stream' in sx.show(gs[1][0]):
+                count = N - conv(sx.strip(gs[0][0])[3], (b, i)) - lfe_count()
+            elif shape == [('<', False, True), ('!=', False, True)] and 'lfe_stream' in sx.show(gs[1][0]):
+                count = lfe_count()
+            else:
+                return None, 'stream class guarded by `%s` is not one of coupled / mono / LFE' % ' && '.join(sx.show(c) for c, pol in gs)
+            val = conv(s_[2], (b, i))
+        except _NonPoly as ex:
+            return None, 'not polynomial: %s' % ex
+        classes.append((sx.line(s_), count, val))
+        total = total + count * val
+    # eliminate the ratio symbols:  r = A/B  and  total = r*P1 + P0  with  P1 = q*B   gives  q*A + P0
+    for nm, (A, B, d) in list(ratios.items()):
+        sp = total.coeff_of(nm)
+        if sp is None:
+            return None, '%s occurs non-linearly' % names[nm]
+        P1, P0 = sp
+        if P1.is_zero():
+            continue
+        q = P1.ratio_to(B)
+        if q is None:
+            return False, 'the streams share %s = (...)/(%s) with total weight %s, which is not a multiple of its divisor' % (names[nm], B, P1)
+        total = P0 + A.scale(q)
+    # the requested total: the local that takes st->bitrate_bps
+    target = None
+    for l in g.locals.values():
+        for lv, r in decide.find_assign(g, l['name']):
+            if sx.kind(sx.strip(r)) in ('arrow', 'field', 'member') and 'bitrate_bps' in sx.show(r):
+                target = l
+    if target is None:
+        return None, 'no local takes st->bitrate_bps'
+    tp = local_poly(['local', target['name'], target['id']], (stores[0][0], stores[0][1]))
+    diff = total - tp
+
+    def pretty(p):
+        t = repr(p)
+        for nm, n0 in names.items():
+            t = t.replace(nm, n0)
+        return t
+    if diff.is_zero():
+        return True, '%d stream class(es), sum of rate[i] == %s identically (clamps at zero and integer rounding aside)' % (len(classes), target['name'])
+    return False, 'sum of rate[i] - %s = %s  (should vanish identically)' % (target['name'], pretty(diff))
+
+
+def r05_7(rep, prog):
+    """the multistream encoder's per-stream split hands out exactly the requested total"""
+    n = 0
+    for g in prog.functions_all:
+        if not g.file.endswith('opus_multistream_encoder.c') or not g.static:
+            continue
+        if not any(p['name'] == 'rate' and '*' in p['type'] for p in g.params):
+            continue
+        if not any(sx.kind(x) in ('arrow', 'field', 'member') and 'bitrate_bps' in sx.show(x) for x in g.all_nodes()):
+            continue
+        rep.functions.add(g.name)
+        ok, detail = _rate_identity(prog, g)
+        inst = '%s:%s splits the requested bitrate over the streams without gain or loss' % (prog.config, g.name)
+        n += 1
+        if ok is None:
+            rep.unresolved('R05.7', inst + ': ' + detail)
+        elif ok:
+            rep.holds('R05.7', inst, g.where(), detail)
+        else:
+            rep.violated('R05.7', inst, g.where(), detail, key=g.name + ':split')
+    return n
+
+
 def check(rep, prog, tier):
+    r05_7(rep, prog)
     r05_5(rep, prog)
     r05_6(rep, prog)
     r05_native(rep, prog)
